@@ -91,6 +91,14 @@ var c03errorSites = []string{
 	"es_a, es_b = {\"a-long-string-over-12-bytes\": 1, \"b\": 2, \"c\": 3}\n",
 	"es_r = json.decode('{\"a-long-string-over-12-bytes\": 1, \"b\": 2, \"a-long-string-over-12-bytes\": 3, \"b\": }')\n",
 	"es_r = time.time(yeer=1, munth=2, dai=3)\n",
+	// misspelt members of library modules with several equally near candidates (the hint's tie-break must not
+	// depend on the order in which a module lists its members)
+	"es_r = math.sinx(1)\n", "es_r = math.acosx\n", "es_r = math.atanx\n", "es_r = json.dncode(\"1\")\n", "es_r = math.cosx\n", "es_r = math.tanx(0)\n",
+	"es_r = time.noww()\n", "es_r = time.parse_tim\n", "es_r = math.lo(2)\n", "es_r = math.flor(1.5)\n", "es_r = json.encod(1)\n", "es_r = math.ex\n",
+	// library modules (and values holding them) handed to json.encode / str / dir: members are walked in a defined order
+	"es_r = json.encode(math)\n", "es_r = json.encode(json)\n", "es_r = json.encode([1, {\"m\": time}])\n", "es_r = json.encode(struct(mod=math, n=1))\n",
+	"es_r = json.encode({\"a\": [math, json]})\n",
+	"print(str(math)[:40], dir(math) == sorted(dir(math)), dir(json), dir(time))\nes_r = [getattr(math, q) for q in dir(math)][1000]\n",
 	"def es_g(a, b):\n    w = [a, b]\n    for q in range(4):\n        w.append(q)\n    return w\ndef es_h(n):\n    v = es_g(n, n + 1)\n    v2 = es_g(*v[:2])\n    return es_g(n)\nes_r = [es_h(1)]\n",
 	"def es_g(a, b=1, *, c):\n    w = [a, b]\n    for q in range(4):\n        w.append(q)\n    return w\nes_ok = es_g(1, c=2)\nes_r = sorted([3, 1, 2], key=es_g)\n",
 	"es_l = lambda a, b: (\n    a +\n    b +\n    1)\nes_ok = es_l(1, 2)\nes_r = es_l(1)\n",
